@@ -123,6 +123,12 @@ class SmartList(_SliceNormalizerMixIn, list):
         self.extend(other)
         return self
 
+    def __imul__(self, other):
+        if other <= 0:
+            del self[:]
+            return self
+        return super().__imul__(other)
+
     def _delete_child(self, child_ref):
         """Remove a child reference that is about to be garbage-collected."""
         del self._children[id(child_ref)]
@@ -165,6 +171,10 @@ class SmartList(_SliceNormalizerMixIn, list):
     @inheritdoc
     def remove(self, item):
         del self[self.index(item)]
+
+    @inheritdoc
+    def clear(self):
+        del self[:]
 
     @inheritdoc
     def reverse(self):
